@@ -1,0 +1,33 @@
+//go:build verif
+
+package thrift
+
+import "unsafe"
+
+// Observation hooks for the ownership checks (C09/C14) of the verification framework.
+// Add-only, compiled only with -tags verif; nothing here changes behaviour.
+
+// VerifOwnRSD reports the private buffer of a ReaderSkipDecoder: data pointer (0 when cap is 0),
+// len, cap, and the number of bytes read so far (p.n).
+func VerifOwnRSD(p *ReaderSkipDecoder) (base uintptr, ln, cp, n int) {
+	if cap(p.b) > 0 {
+		b := p.b
+		base = *(*uintptr)(unsafe.Pointer(&b))
+	}
+	return base, len(p.b), cap(p.b), p.n
+}
+
+// VerifOwnBufferReaderIsReset reports whether a BufferReader holds no reader (as after Recycle).
+func VerifOwnBufferReaderIsReset(r *BufferReader) bool { return r.r == nil }
+
+// VerifOwnBufferWriterIsReset reports whether a BufferWriter holds no writer (as after Recycle).
+func VerifOwnBufferWriterIsReset(w *BufferWriter) bool { return w.w == nil }
+
+// VerifOwnSkipDecoderState reports the fields of a SkipDecoder (r == nil, rn).
+func VerifOwnSkipDecoderState(p *SkipDecoder) (rnil bool, rn int) { return p.r == nil, p.rn }
+
+// VerifOwnBytesSkipDecoderState reports the fields of a BytesSkipDecoder (len(b), cap(b), n).
+func VerifOwnBytesSkipDecoderState(p *BytesSkipDecoder) (ln, cp, n int) { return len(p.b), cap(p.b), p.n }
+
+// VerifOwnRSDReaderIsNil reports whether a ReaderSkipDecoder holds no reader (as after Release).
+func VerifOwnRSDReaderIsNil(p *ReaderSkipDecoder) bool { return p.r == nil }
